@@ -280,7 +280,12 @@ def handleInt (op : String) (args : List String) (rhs : String) : Verdict :=
         match parseCV rhs with
         | some r =>
           let m : Int := ((2 ^ c.toNat : Nat) : Int)
-          if r.c = c ∧ (r.v - v) % m = 0 ∧ r.v.natAbs < 2 ^ c.toNat then .ok else .diff (rI (truncI v c) c)
+          if r.c = c ∧ (r.v - v) % m = 0 ∧ r.v.natAbs < 2 ^ c.toNat then .ok
+          else if (r.v - v) % m ≠ 0 then
+            -- not even correct modulo 2^cap: wrong beyond the truncation convention
+            .bad (if al == "a2" && op != "i.mul" then "int-add-alias-rhs" else if al != "a0" then "int-output-alias" else op)
+              ("wrong modulo 2^cap: expected≡" ++ rI (truncI v c) c ++ " observed=" ++ rhs)
+          else .diff (rI (truncI v c) c)
         | none => .diff (rI (truncI v c) c)
       else classify op al (if al == "a2" && op != "i.mul" then "int-add-alias-rhs" else "int-output-alias") (rI v c) rhs
     | _, _, _ => .unsupported "args"
@@ -922,6 +927,13 @@ def handleMore (op : String) (args : List String) (rhs : String) : Option Verdic
       | some a, some b => if bitLen a = bits ∧ bitLen b = bits ∧ flag == "1" then .ok else .bad "random-bitlen" ("requested " ++ bs ++ " bits: " ++ rhs)
       | _, _ => .bad "random-bitlen" rhs
     | _, _ => .bad "random-bitlen" rhs
+  | "NP.ctor", [as, rs, us, los, his, ms] => some <|
+    match hexToNat? as, parseRat rs, hexToNat? us, hexToNat? los, hexToNat? his, hexToNat? ms with
+    | some a, some (rn, rd), some u, some rlo, some rhi, some m =>
+      fieldsVerdict op [some (okIf (rn % (rd : Int) == 0 && decide (rn > 0)) (hi (rn / (rd : Int)))), some (okIf (u != 0) (hx u)), some (okIf (a != 0) (hx a)),
+        some (if rn = 0 then "0" else "1"), some (toString (bitLen m)), none]
+        (fun _ g => inRangeI rlo rhi g) rhs
+    | _, _, _, _, _, _ => .unsupported "args"
   | "Q.opidentity", [] => some (spec "q-opidentity" "0|1,1" rhs)
   | "Zn.top1", [] => some (spec "zn-top-modulus-one" "0" rhs)
   | _, _ => none
